@@ -169,6 +169,7 @@ type wchan struct {
 }
 
 type wreader struct {
+	emptyAtEvictions int // number of evictions seen when this reader last returned an empty read
 	r       *Reader
 	ctx     context.Context
 	cancel  context.CancelFunc
@@ -832,11 +833,19 @@ func (w *World) judgeRead(i int, rd *wreader) {
 		w.problem("C02", "C02/read-wrong-bytes", "reader %d at position %d returned %d bytes that differ from the true content", i, rd.pos, rd.n)
 		w.problem("C01", "C01/reader-wrong-bytes", "reader %d at position %d returned %d bytes that differ from the true content", i, rd.pos, rd.n)
 	}
-	if rd.n == 0 && rd.err == nil && len(rd.buf) > 0 && rd.pos < rd.ln && rd.ctx.Err() == nil && w.evictions == 0 && !w.loopDead {
+	// (One empty read is legitimate after an eviction: the piece the reader had seen
+	// complete is gone, and the next Read asks for it again.  A second one with no
+	// further eviction in between is not.)
+	emptyOK := false
+	if rd.n == 0 && rd.err == nil && w.evictions > rd.emptyAtEvictions {
+		emptyOK = true
+		rd.emptyAtEvictions = w.evictions
+	}
+	if rd.n == 0 && rd.err == nil && len(rd.buf) > 0 && rd.pos < rd.ln && rd.ctx.Err() == nil && !emptyOK && !w.loopDead {
 		// Read came back empty-handed without an error: its wait was ended
 		// although the piece was not verified.  (Only after an eviction is an
 		// empty read legitimate: the piece it had seen complete is gone.)
-		w.problem("C10", "C10/woken-without-verification", "reader %d at position %d: Read returned 0 bytes and no error although the piece it waits for has not been verified, nothing was evicted and its context is live", i, rd.pos)
+		w.problem("C10", "C10/woken-without-verification", "reader %d at position %d: Read returned 0 bytes and no error although the piece it waits for has not been verified, nothing was evicted since its last empty read and its context is live", i, rd.pos)
 	}
 	rd.pos += int64(rd.n)
 	if rd.err == io.EOF && rd.pos != rd.ln {
